@@ -757,3 +757,163 @@ Definition run_out (cells : list cell_id) (astw : bool) (sched : list nat) (ps :
   OL [o_list o_result (run cells astw false sched ps);
       o_list (fun it => OL [o_nat (fst it); ON (snd it)])
              (trace sched (threads_from cells astw false 0 ps, init_glob default_registry ps))].
+
+(* ------------------------------------------------------------------ *)
+(* Keyed cells (additive; nothing above depends on it).
+
+   The statement model above interprets one kind of shared cell (the balance cache) and
+   the shared parsed statements.  The inventory (Gen/SharedState.v) also looks for
+   containers the statement model has no semantics for: a container on the Connection
+   object that the workload changes (e.g. a cache of compiled statements keyed by the
+   statement text) and a mutable container living on a class that instances write
+   through self (e.g. the column namespace of FROM-subquery tables).  They are modelled
+   here as ONE key -> value store per container, with two thread shapes that mirror
+   where beanquery keeps such state between two evaluation steps:
+
+   (a) query_compile.SubqueryTable.columns (name -> column accessor = position of the
+       subquery target): WRITTEN while Compiler._compile_from compiles the FROM clause,
+       READ when Compiler._column binds the outer column references (targets left to
+       right, then WHERE); a pure function of constants among the targets is CALLED in
+       between by the constant folding of Compiler._function - a yield point at COMPILE
+       time.  The design of the code: the dict is created by SubqueryTable.__init__ on the
+       instance (private to one compilation).
+   (b) query_compile.EvalAggregator.value on the aggregator nodes of a compiled statement:
+       WRITTEN by finalize(store) for the group being emitted, READ by __call__ when
+       execute_select evaluates the targets of that group left to right; a function over an
+       aggregate value (vyield(count( * ))) is a yield point between two reads.  The design
+       of the code: a fresh compilation per Cursor.execute (the nodes are private to one
+       execution).
+   [shared = true] is the other design: the container is ONE object for all threads
+   (class attribute; compiled tree cached on the shared connection by statement text). *)
+
+Inductive kcomp (A : Type) :=
+| KRet (a : A)
+| KYield (k : kcomp A)
+| KGet (key : Z) (k : option Z -> kcomp A)
+| KPut (key : Z) (v : Z) (k : kcomp A).
+Arguments KRet {A}. Arguments KYield {A}. Arguments KGet {A}. Arguments KPut {A}.
+
+Definition kstore := list (Z * Z).
+
+Fixpoint kget (key : Z) (s : kstore) : option Z :=
+  match s with
+  | [] => None
+  | (k, v) :: t => if k =? key then Some v else kget key t
+  end.
+
+Fixpoint kput (key v : Z) (s : kstore) : kstore :=
+  match s with
+  | [] => [(key, v)]
+  | (k, v') :: t => if k =? key then (key, v) :: t else (k, v') :: kput key v t
+  end.
+
+Fixpoint kbind {A B} (c : kcomp A) (f : A -> kcomp B) : kcomp B :=
+  match c with
+  | KRet a => f a
+  | KYield k => KYield (kbind k f)
+  | KGet key k => KGet key (fun x => kbind (k x) f)
+  | KPut key v k => KPut key v (kbind k f)
+  end.
+
+Fixpoint kto_yield {A} (c : kcomp A) (s : kstore) : kcomp A * kstore :=
+  match c with
+  | KRet a => (KRet a, s)
+  | KYield k => (k, s)
+  | KGet key k => kto_yield (k (kget key s)) s
+  | KPut key v k => kto_yield k (kput key v s)
+  end.
+
+Fixpoint kto_end {A} (c : kcomp A) (s : kstore) : A * kstore :=
+  match c with
+  | KRet a => (a, s)
+  | KYield k => kto_end k s
+  | KGet key k => kto_end (k (kget key s)) s
+  | KPut key v k => kto_end k (kput key v s)
+  end.
+
+Definition kstate (A : Type) := (list (kcomp A) * kstore)%type.
+
+(* the same scheduler as [step]/[drain]/[run_state] *)
+Definition kstep {A} (st : kstate A) (i : nat) : kstate A :=
+  match nth_error (fst st) i with
+  | Some c => let (c', s') := kto_yield c (snd st) in (set_nth i c' (fst st), s')
+  | None => st
+  end.
+
+Fixpoint kdrain {A} (ts : list (kcomp A)) (s : kstore) : list A * kstore :=
+  match ts with
+  | [] => ([], s)
+  | c :: t => let (a, s1) := kto_end c s in let (r, s2) := kdrain t s1 in (a :: r, s2)
+  end.
+
+Definition krun_state {A} (sched : list nat) (st : kstate A) : list A * kstore :=
+  let st' := fold_left kstep sched st in kdrain (fst st') (snd st').
+
+Definition krun {A} (sched : list nat) (ts : list (kcomp A)) : list A := fst (krun_state sched (ts, [])).
+Definition kserial {A} (ts : list (kcomp A)) : list A := krun [] ts.
+
+(* (a) the column namespace of a FROM-subquery *)
+Fixpoint ns_fill {A} (pos : Z) (names : list Z) (k : kcomp A) : kcomp A :=
+  match names with
+  | [] => k
+  | n :: t => KPut n pos (ns_fill (pos + 1) t k)
+  end.
+
+(* the dict as one compilation alone leaves it (columns[name] = column(i) in target order: a later target of the
+   same name wins) *)
+Definition ns_own (names : list Z) : kstore := snd (kto_end (ns_fill 0 names (KRet tt)) []).
+
+Fixpoint ns_bind (shared : bool) (own : kstore) (refs : list Z) : kcomp (list (option Z)) :=
+  match refs with
+  | [] => KRet []
+  | r :: t =>
+      if shared
+      then KGet r (fun v => kbind (ns_bind shared own t) (fun vs => KRet (v :: vs)))
+      else kbind (ns_bind shared own t) (fun vs => KRet (kget r own :: vs))
+  end.
+
+(* One compilation of SELECT pre..., f(const), post... FROM (SELECT ... AS names...):
+   result = for every outer column reference the position of the subquery target it was bound to
+   (None = "column does not exist"). *)
+Record ns_stmt := mkNs { ns_names : list Z; ns_pre : list Z; ns_post : list Z }.
+
+Definition ns_thread (shared : bool) (q : ns_stmt) : kcomp (list (option Z)) :=
+  let own := ns_own (ns_names q) in
+  let body := kbind (ns_bind shared own (ns_pre q)) (fun a =>
+                KYield (kbind (ns_bind shared own (ns_post q)) (fun b => KRet (a ++ b)))) in
+  if shared then ns_fill 0 (ns_names q) body else body.
+
+(* (b) the aggregator nodes of a compiled statement: one slot per aggregate of the statement *)
+Fixpoint slots_from (j : Z) (vals : list Z) : kstore :=
+  match vals with
+  | [] => []
+  | v :: t => (j, v) :: slots_from (j + 1) t
+  end.
+
+Fixpoint agg_finalize {A} (j : Z) (vals : list Z) (k : kcomp A) : kcomp A :=
+  match vals with
+  | [] => k
+  | v :: t => KPut j v (agg_finalize (j + 1) t k)
+  end.
+
+Fixpoint agg_read (shared : bool) (own : kstore) (j : Z) (n : nat) : kcomp (list (option Z)) :=
+  match n with
+  | O => KRet []
+  | S m =>
+      let rest := fun v => KYield (kbind (agg_read shared own (j + 1) m) (fun vs => KRet (v :: vs))) in
+      if shared then KGet j rest else rest (kget j own)
+  end.
+
+(* the result phase of execute_select: groups in insertion order, each given by its aggregate values *)
+Fixpoint agg_emit (shared : bool) (groups : list (list Z)) : kcomp (list (list (option Z))) :=
+  match groups with
+  | [] => KRet []
+  | g :: t =>
+      let body := kbind (agg_read shared (slots_from 0 g) 0 (length g)) (fun row =>
+                    kbind (agg_emit shared t) (fun rows => KRet (row :: rows))) in
+      if shared then agg_finalize 0 g body else body
+  end.
+
+(* Which design is in force is decided by the inventory: any cell the statement model does not interpret. *)
+Definition is_unknown_cell (c : cell_id) : bool := match c with CUnknown _ => true | _ => false end.
+Definition keyed_cells_shared (cells : list cell_id) : bool := existsb is_unknown_cell cells.
